@@ -3,6 +3,7 @@ from vsym.runner import Ob
 from .common import *
 
 PROPERTY = 'C03'
+PYTHON_O = ['rt1/blocked/class', 'rt1/unblocked/func', 'rt1/unblocked/class']      # obligations that are also explored with the modules compiled as under python -O
 ASSUMPTIONS = [
     'file object = RopeFile (io.BytesIO semantics); io.BytesIO inside cardutil is that class',
     'record content is opaque (the framing code never inspects it), so 0x00 / 0x40 runs are contents like any other',
@@ -39,7 +40,16 @@ def roundtrip(bounds, blocked, api):
             return {'kind': 'roundtrip', 'args': {'lengths': [ev(n) for n in ns], 'blocked': blocked, 'api': api,
                                                  'records': [concretize(r, ev) for r in recs]}}
         core.set_fallback(rp, 'C03/concretised')
-        if api == 'class':
+        if api == 'with-close':
+            # explicit close inside the with block: the writer is finalised once, the second close changes nothing
+            f = RopeFile()
+            with m.VbsWriter(f, blocked=blocked) as w:
+                for r in recs:
+                    w.write(r)
+                w.close()
+            data = f.getvalue()
+            require(same_int(f.pos, 0), 'file not rewound by close', key='C03/rewind', replay=rp)
+        elif api == 'class':
             f = RopeFile()
             w = m.VbsWriter(f, blocked=blocked)
             for r in recs:
@@ -56,7 +66,7 @@ def roundtrip(bounds, blocked, api):
             req_eq(data, E, 'unblocked file is not [len32 body]* 0', key='C03/layout', replay=rp)
         core.FUEL.set(nblocks + 4)
         try:
-            if api == 'class':
+            if api in ('class', 'with-close'):
                 got = []
                 rd = m.VbsReader(f, blocked=blocked)
                 for rec in rd:
@@ -139,6 +149,9 @@ def obligations(tier):
             b2 = [3000, 3000] if q else [6000, 6000]
             obs.append(Ob('rt2/' + tag, roundtrip(b2, blocked, api), 400,
                           'two records, every pair of lengths 1..%d' % b2[0], _funcs))
+    for blocked in (False, True):
+        obs.append(Ob('rt1-with-close/%s' % ('blocked' if blocked else 'unblocked'), roundtrip([MAXREC if not q else 2500], blocked, 'with-close'), 300,
+                      'one record written inside `with VbsWriter(...)` with an explicit close() before the block ends (close reached twice)', _funcs))
     obs.append(Ob('default-reader/unblocked', default_reader(3000 if q else 6000), 300,
                   'one record of any length and any content (bytes at the offsets a blocking probe would inspect go through the peek table), '
                   'written and read back through the convenience functions with no options', _funcs))
